@@ -1,1 +1,144 @@
-(* placeholder: being written *)
+(* Properties/C19.v — Traffic refused to one client does not consume capacity shared with others.
+   Only statements closed by [exact lemma], Examples (non-vacuity) and Print Assumptions live here.
+
+   The model's AllowRequest consults the limiters in the order [ord]; the real order is the fact
+   [Facts.allow_request_order], extracted from the body of RateLimiter.AllowRequest on every run.
+   The theorems hold for EVERY order in which the global limiter comes last ([global_last ord = true]);
+   [C19_facts] re-proves by computation that the current source satisfies that side condition, so moving the
+   global check first breaks the named obligation C19_facts (and the correspondence run then exhibits a
+   compliant client refused next to an abusive one). *)
+From Coq Require Import List QArith ZArith NArith Bool.
+From Verif Require Import Gen.Facts Model.TokenBucket Model.RateLimit Proofs.TokenBucketProofs Proofs.RateLimitProofs.
+Import ListNotations.
+Open Scope Q_scope.
+
+(* ---------- the fact of the source ---------- *)
+Theorem C19_facts :
+  allow_request_order = [RL_PerIP; RL_PerConn; RL_Global] /\
+  global_last allow_request_order = true /\ NoDup allow_request_order.
+Proof. split; [reflexivity|]. split; [reflexivity|]. repeat constructor; cbn; intuition discriminate. Qed.
+
+(* ---------- a refused request consumes no global capacity ---------- *)
+(* in ANY state: if some limiter other than the global one refused the request, the global bucket is untouched
+   (the same record), hence its token count after a refill to any time is unchanged *)
+Theorem C19_no_consume : forall (e : env) (lim : limits) (ord : list rl_limiter) (i : nat) (st : rl) (now : Q) (ip c : N),
+  global_last ord = true ->
+  let tr := fst (step e lim ord i st now (Req ip c)) in
+  let st' := snd (step e lim ord i st now (Req ip c)) in
+  (exists k, In (k, false) tr /\ k <> KGlobal) ->
+  find KGlobal (buckets st') = find KGlobal (buckets st) /\
+  forall t, level lim (buckets st') KGlobal t = level lim (buckets st) KGlobal t.
+Proof. exact C19_no_consume_lemma. Qed.
+
+(* the same from the cause: in a reachable state, a request whose per-IP or per-connection bucket holds less than
+   one token is refused and leaves the global bucket untouched *)
+Theorem C19_own_limit_refusal : forall (e : env) (lim : limits) (ord : list rl_limiter) (i : nat) (st : rl) (now : Q)
+                                       (ip c : N) (k : key),
+  lim_ok lim -> global_last ord = true -> NoDup ord -> inv lim (buckets st) now ->
+  In k (keys_of lim ord (Req ip c)) -> k <> KGlobal -> level lim (buckets st) k now < 1 ->
+  admitted (fst (step e lim ord i st now (Req ip c))) = false /\
+  find KGlobal (buckets (snd (step e lim ord i st now (Req ip c)))) = find KGlobal (buckets st).
+Proof. exact C19_own_limit_lemma. Qed.
+
+(* consequently, after ANY history the global bucket is exactly a stand-alone token bucket (global rate and burst,
+   created with the limiter) charged with the ADMITTED requests only -- and that bucket admitted each of them *)
+Theorem C19_global_tracks_admitted : forall (e : env) (lim : limits) (ord : list rl_limiter) (t0 : Q)
+                                            (evs : list (Q * event)) (now : Q),
+  lim_ok lim -> global_last ord = true -> times_sorted t0 evs -> end_time t0 evs <= now ->
+  let trs := fst (RateLimit.run e lim ord t0 evs) in
+  let st := snd (RateLimit.run e lim ord t0 evs) in
+  let r := TokenBucket.run (mk (rate_of lim KGlobal) (burst_of lim KGlobal) t0) (admitted_req_times evs trs) in
+  forallb (fun x : bool => x) (fst r) = true /\
+  level lim (buckets st) KGlobal now == tokens_at (snd r) now /\
+  inv lim (buckets st) now.
+Proof. exact C19_global_tracks_lemma. Qed.
+
+(* ---------- isolation ---------- *)
+(* after ANY history (however much other clients sent beyond their limits), a request of a client whose own per-IP
+   and per-connection buckets hold a token is admitted whenever the requests actually admitted so far leave a
+   token in the global budget *)
+Theorem C19_isolation : forall (e : env) (lim : limits) (ord : list rl_limiter) (t0 : Q) (evs : list (Q * event))
+                               (i : nat) (now : Q) (ip c : N),
+  lim_ok lim -> global_last ord = true -> NoDup ord -> times_sorted t0 evs -> end_time t0 evs <= now ->
+  let trs := fst (RateLimit.run e lim ord t0 evs) in
+  let st := snd (RateLimit.run e lim ord t0 evs) in
+  let G := snd (TokenBucket.run (mk (rate_of lim KGlobal) (burst_of lim KGlobal) t0) (admitted_req_times evs trs)) in
+  1 <= level lim (buckets st) (KIP ip) now ->
+  (conn_on lim = true -> 1 <= level lim (buckets st) (KConn c) now) ->
+  1 <= tokens_at G now ->
+  admitted (fst (step e lim ord i st now (Req ip c))) = true.
+Proof. exact C19_isolation_lemma. Qed.
+
+(* ... for the Go RateLimiter: any non-negative configuration, the order read from the source, the Go cleanup *)
+Theorem C19_isolation_go : forall (c : config) (sel : nat -> N -> bool) (t0 : Q) (evs : list (Q * event))
+                                  (i : nat) (now : Q) (ip cn : N),
+  cfg_nonneg c -> times_sorted t0 evs -> end_time t0 evs <= now ->
+  let lim := limits_of c in
+  let e := env_go lim sel in
+  let trs := fst (RateLimit.run e lim allow_request_order t0 evs) in
+  let st := snd (RateLimit.run e lim allow_request_order t0 evs) in
+  let G := snd (TokenBucket.run (mk (rate_of lim KGlobal) (burst_of lim KGlobal) t0) (admitted_req_times evs trs)) in
+  1 <= level lim (buckets st) (KIP ip) now ->
+  (conn_on lim = true -> 1 <= level lim (buckets st) (KConn cn) now) ->
+  1 <= tokens_at G now ->
+  admitted (fst (step e lim allow_request_order i st now (Req ip cn))) = true.
+Proof.
+  exact (fun c sel t0 evs i now ip cn Hc Hs Hle =>
+           C19_isolation_lemma (env_go (limits_of c) sel) (limits_of c) allow_request_order t0 evs i now ip cn
+                               (limits_of_ok c Hc) (proj1 (proj2 C19_facts)) (proj2 (proj2 C19_facts)) Hs Hle).
+Qed.
+
+(* ---------- non-vacuity ---------- *)
+(* global 10/s; an abusive client (per-IP burst 1) fires 20 requests at once: 1 admitted, 19 refused by its own
+   limit; the global bucket still holds 9 tokens, so the compliant client is admitted *)
+Definition ex_cfg : config :=
+  {| GlobalRequestsPerSecond := 10; PerIPRequestsPerSecond := 1; PerIPBurstSize := 1;
+     PerConnectionRequestsPerSecond := 0; PerConnectionBurstSize := 1;
+     ReadLargeOpsPerSecond := 1; WriteLargeOpsPerSecond := 1; ReaddirOpsPerSecond := 1;
+     MountOpsPerMinute := 60; CleanupInterval := 300000000000 |}.
+Definition ex_abuse : list (Q * event) := repeat (0, Req 0 0) 20.
+
+Example C19_isolation_nontrivial :
+  let lim := limits_of ex_cfg in
+  let e := env_go lim (fun _ _ => true) in
+  let r := RateLimit.run e lim allow_request_order 0 ex_abuse in
+  cfg_nonneg ex_cfg /\ times_sorted 0 ex_abuse /\
+  nadm (decisions (fst r)) = 1%Z /\
+  level lim (buckets (snd r)) KGlobal 0 == 9 /\
+  1 <= level lim (buckets (snd r)) (KIP 1) 0 /\
+  admitted (fst (step e lim allow_request_order 20 (snd r) 0 (Req 1 1))) = true.
+Proof.
+  cbn zeta. split; [unfold cfg_nonneg; cbn; intuition discriminate|].
+  split; [cbn; intuition discriminate|]. repeat split; vm_compute; try reflexivity; discriminate.
+Qed.
+
+(* hypotheses of C19_no_consume met: the 2nd request of the abusive client is refused by its per-IP bucket *)
+Example C19_no_consume_nontrivial :
+  let lim := limits_of ex_cfg in
+  let e := env_go lim (fun _ _ => true) in
+  let st := snd (RateLimit.run e lim allow_request_order 0 (firstn 1 ex_abuse)) in
+  In (KIP 0, false) (fst (step e lim allow_request_order 1 st 0 (Req 0 0))) /\
+  level lim (buckets st) KGlobal 0 == 9 /\
+  level lim (buckets (snd (step e lim allow_request_order 1 st 0 (Req 0 0)))) KGlobal 0 == 9.
+Proof. cbn zeta. split; [vm_compute; left; reflexivity|]. split; vm_compute; reflexivity. Qed.
+
+(* the side condition matters: with the global limiter consulted FIRST (the code before the repair) the same
+   20 refused requests drain the global bucket and the compliant client is refused although its own bucket is full
+   and only one request was admitted *)
+Example C19_global_first_violates :
+  let lim := limits_of ex_cfg in
+  let e := env_go lim (fun _ _ => true) in
+  let bad := [RL_Global; RL_PerIP; RL_PerConn] in
+  let r := RateLimit.run e lim bad 0 ex_abuse in
+  global_last bad = false /\
+  nadm (decisions (fst r)) = 1%Z /\
+  1 <= level lim (buckets (snd r)) (KIP 1) 0 /\
+  admitted (fst (step e lim bad 20 (snd r) 0 (Req 1 1))) = false.
+Proof. cbn zeta. repeat split; vm_compute; try reflexivity; discriminate. Qed.
+
+Print Assumptions C19_facts.
+Print Assumptions C19_no_consume.
+Print Assumptions C19_own_limit_refusal.
+Print Assumptions C19_global_tracks_admitted.
+Print Assumptions C19_isolation.
+Print Assumptions C19_isolation_go.
